@@ -854,6 +854,139 @@ def p_scatter_affine(b):
     affine_inputs(e)   # cached second time
 
 
+@program
+def p_scatter_delta_constant(b):
+    from funsor.terms import Scatter
+    from funsor.constant import Constant
+    n = 5
+    i = Tensor(b.own(np.array([0, 0, 1, 2, 2])), b.inputs([("n", n)]), 3)
+    j = Tensor(b.own(np.array([0, 1, 0, 2, 3])), b.inputs([("n", n)]), 4)
+    src = b.tensor([("n", n)], (), kind="pos")
+    b.hold(i, j)
+    rv = frozenset({Variable("n", Bint[n])})
+    for op in (ops.add, ops.logaddexp, ops.max):
+        b.t(lambda: Scatter(op, (("i", i), ("j", j)), src, rv))
+    b.t(lambda: Scatter(ops.add, (("i", Number(0, 3)),), src, frozenset()))
+    src2 = b.tensor([("bb", 4), ("n", 3)], ())
+    i2 = Tensor(b.own(np.array([[0, 1], [3, 4], [5, 6]])), b.inputs([("n", 3), ("m", 2)]), 7)
+    b.t(lambda: Scatter(ops.add, (("i", i2),), src2, frozenset({Variable("n", Bint[3]), Variable("m", Bint[2])})))
+    k = Variable("k", Bint[3])
+    src3 = b.tensor([("k", 3)], ())
+    b.t(lambda: Scatter(ops.add, (("i", k), ("j", k)), src3, frozenset({k})))
+    # Delta with change of variables (solve_unary) and log-density
+    pt = b.tensor([("i", 2)], (2,), kind="pos")
+    ld = b.tensor([("i", 2)], ())
+    x = Variable("x", Reals[2])
+    d = Delta("y", pt, ld)
+    b.hold(d)
+    for f in (ops.exp, ops.log, ops.neg, ops.sigmoid, ops.tanh):
+        b.t(lambda: d(y=f(x)))
+    b.t(lambda: d(y=x + 1.0))
+    b.t(lambda: d(y=x * 2.0))
+    b.t(lambda: (d + d(y="z")).reduce(ops.logaddexp, "y"))
+    b.t(lambda: d.reduce(ops.add, "i"))
+    b.t(lambda: d.reduce(ops.logaddexp, frozenset(["i", "y"])))
+    # Constant
+    data = b.tensor([("i", 2)], ())
+    c = Constant(OrderedDict(bb=Real), data)
+    b.hold(c)
+    v = Variable("v", Real)
+    b.t(lambda: c(bb=v))
+    b.t(lambda: c(bb=b.tensor([("a", 2)], ())))
+    b.t(lambda: c(i=0))
+    b.t(lambda: c + c)
+    b.t(lambda: c.reduce(ops.add, "i"))
+    b.t(lambda: c.reduce(ops.add, "bb"))
+    c2 = Constant(OrderedDict(x=Bint[3], y=Real), data)
+    b.t(lambda: c2(x=0))
+    b.t(lambda: c2(y=b.tensor([("a", 2)], ())))
+
+
+@program
+def p_tracer_factory(b):
+    from funsor.ops.tracer import trace_function
+    from funsor.factory import make_funsor, Bound, Fresh, Value, Has
+    from funsor.domains import Array
+    from funsor.op_factory import make_op
+
+    def fn(x, y):
+        return ops.add(x, ops.mul(x, y))
+
+    data = dict(x=b.arr((3,)), y=b.arr((2, 1)))
+    tr = trace_function(fn, data)
+    tr(**data)
+
+    def fn2(x, y):
+        return (1, x, y, ops.mul(x, y))
+    b.t(lambda: trace_function(fn2, data)(**data) and None)
+
+    @make_funsor
+    def GetitemGetitem(
+        x: Funsor,
+        i: Fresh[lambda x: Bint[x.shape[0]]],
+        j: Fresh[lambda x: Bint[x.shape[1]]],
+    ) -> Fresh[lambda x: Array[x.dtype, x.shape[2:]]]:
+        return x[i][j]
+
+    x = b.tensor(b.pick_inputs(hi=2), (3, 4))
+    b.t(lambda: GetitemGetitem(x, "i9", "j9"))
+    with lazy:
+        lg = GetitemGetitem(x, "i9", "j9")
+    b.hold(lg)
+    b.t(lambda: reinterpret(lg))
+    b.t(lambda: lg(i9=0))
+
+    @make_funsor
+    def LambdaLambda(i: Bound, j: Bound, x: Funsor) -> Fresh[lambda i, j, x: Array[x.dtype, (i.size, j.size) + x.shape]]:
+        return Lambda(i, Lambda(j, x))
+
+    y = b.tensor([("i", 2), ("j", 3)], ())
+    b.t(lambda: LambdaLambda("i", "j", y))
+
+    @make_op
+    def softmax0(v: Reals[3]) -> Reals[3]:
+        e = np.exp(v - v.max())
+        return e / e.sum()
+    z = b.tensor([("i", 2)], (3,))
+    b.t(lambda: softmax0(z))
+    with lazy:
+        lz = softmax0(Variable("q", Reals[3]))
+    b.hold(lz)
+    b.t(lambda: lz(q=z))
+
+
+@program
+def p_cat_domains(b):
+    # ops.cat / ops.stack on funsors, getitem with a Variable index on one axis, einsum broadcast helper
+    x = b.tensor(b.pick_inputs(hi=2), (2, 3))
+    y = b.tensor(b.pick_inputs(hi=2), (4, 3))
+    b.t(lambda: ops.cat([x, y]))
+    b.t(lambda: ops.stack([x, x + 1.0]))
+    v = Variable("v", Bint[3])
+    b.t(lambda: x[:, v])
+    b.t(lambda: x[Variable("u", Bint[2]), v])
+    b.t(lambda: x[1, v])
+    from funsor.einsum.util import broadcast_all
+    b.t(lambda: broadcast_all(x.data, y.data[:2]) and None)
+    # adjoint through Subs / Cat
+    f = b.tensor([("i", 3), ("j", 2)], ())
+    idx = b.tensor([("k", 2)], (), kind="int:3", dtype=3)
+    with AdjointTape() as tape:
+        out = f(i=idx).reduce(ops.logaddexp)
+    b.t(lambda: tape.adjoint(ops.logaddexp, ops.add, out, (f,)))
+    c1 = b.tensor([("t", 2), ("j", 2)], ())
+    c2 = b.tensor([("t", 3), ("j", 2)], ())
+    with AdjointTape() as tape2:
+        out2 = Cat("t", (c1, c2)).reduce(ops.logaddexp)
+    b.t(lambda: tape2.adjoint(ops.logaddexp, ops.add, out2, (c1, c2)))
+    # partial_sum_product with a plate-dependent chain of eliminations
+    fs = [b.tensor([("a", 2)], (), kind="pos"), b.tensor([("a", 2), ("p", 2), ("b", 3)], (), kind="pos"),
+          b.tensor([("b", 3), ("p", 2), ("q", 2), ("c", 2)], (), kind="pos")]
+    b.t(lambda: partial_sum_product(ops.add, ops.mul, fs, eliminate=frozenset("abcpq"), plates=frozenset("pq")))
+    b.t(lambda: partial_sum_product(ops.add, ops.mul, fs, eliminate=frozenset("bcq"), plates=frozenset("pq")))
+    b.t(lambda: sum_product(ops.add, ops.mul, fs, eliminate=frozenset("abcq"), plates=frozenset("pq")))
+
+
 def run_program(name, mon, rng):
     """Run one program.  Returns (status, info): status in ok | declined | violation | harness-bug."""
     b = B(mon, rng)
